@@ -415,7 +415,7 @@ func regexpQuote(s string) string {
 func whoMayCall(c *Ctx, rule, calleePattern string, allowed []string, needOne bool) {
 	n := 0
 	for _, fn := range c.P.SrcFuncs() {
-		if siteOf(fn) != nil && rawTop(fn) == fn {
+		if siteOf(fn) != nil {
 			continue // its calls are listed with its owner
 		}
 		for _, cs := range CallsTo(Calls(fn), calleePattern) {
